@@ -137,44 +137,60 @@ theorem ps_reader_eq_whole (style fuel : Nat) (s : Stream) (hs : s.NoStall) :
     (Or.inr hs) (Or.inl (digestPS_free style fuel).probeFree)
   exact ⟨h.1, h.2.1⟩
 
-/-- the statement one wants for `cabfile.Digest` -/
-def cab_reader_split_independent_full : Prop :=
-  ∀ (s s' : Stream), s.data = s'.data → s.term = s'.term →
-    (run digestCab (M.raw s)).1 = (run digestCab (M.raw s')).1
-
-/-- **cab_reader_split_independent_partial.** `cabfile.Digest` is split independent over `Plain` streams (no empty
-    reads; the terminal error not delivered with data): its last act is a one-byte `r.Read` whose error alone decides
-    between "trailing garbage" and success. -/
-theorem cab_reader_split_independent_partial (s s' : Stream) (hd : s.data = s'.data) (ht : s.term = s'.term)
-    (hp : s.Plain) (hp' : s'.Plain) :
+/-- **cab_reader_split_independent.** `cabfile.Digest` (after fix F-rd-cab-tail: the rest of the input is drained with
+    `io.Copy(io.Discard, r)` and the byte count decides about trailing garbage) returns the same result, hashes the same
+    bytes and builds the same `Patched` header for every two deliveries of the same bytes with the same end.  No side
+    condition. -/
+theorem cab_reader_split_independent (s s' : Stream) (hd : s.data = s'.data) (ht : s.term = s'.term) :
     (run digestCab (M.raw s)).1 = (run digestCab (M.raw s')).1 ∧
     (run digestCab (M.raw s)).2.1 = (run digestCab (M.raw s')).2.1 := by
   have h := run_split_independent digestCab digestCab_free.rawFree s s' hd ht
-    (Or.inl digestCab_free.bufFree) (Or.inr ⟨hp, hp'⟩)
+    (Or.inl digestCab_free.bufFree) (Or.inl digestCab_free.probeFree)
   exact ⟨h.1, h.2.1⟩
 
-theorem cab_reader_eq_whole (s : Stream) (hp : s.Plain) :
+theorem cab_reader_eq_whole (s : Stream) :
     (run digestCab (M.raw s)).1 = (runFlat digestCab (Flat.raw s.data s.term)).1 ∧
     (run digestCab (M.raw s)).2.1 = (runFlat digestCab (Flat.raw s.data s.term)).2.1 := by
-  have h := run_eq_whole digestCab digestCab_free.rawFree s (Or.inl digestCab_free.bufFree) (Or.inr hp)
+  have h := run_eq_whole digestCab digestCab_free.rawFree s (Or.inl digestCab_free.bufFree) (Or.inl digestCab_free.probeFree)
   exact ⟨h.1, h.2.1⟩
 
 /-- a minimal cabinet: 36-byte header (no folders, no files, no flags, TotalSize = OffsetFiles = 36) -/
 def tinyCab : Bytes :=
   [0x4d, 0x53, 0x43, 0x46, 0, 0, 0, 0, 36, 0, 0, 0, 0, 0, 0, 0, 36, 0, 0, 0, 0, 0, 0, 0, 3, 1, 0, 0, 0, 0, 0, 0, 0, 0, 0, 0]
 
-/-- **cab_reader_split_dependent** (finding F-rd-cab-tail).  The unchanged `cabfile.Digest` depends on the delivery:
-    (a) a cabinet followed by one byte of garbage is refused when read from a file, and accepted — the garbage
-        ignored — when the reader returns io.EOF together with that byte (as net/http request bodies do);
-    (b) a well-formed cabinet is refused ("trailing garbage") when the reader answers the final probe with `0, nil`. -/
+-- the two deliveries that fooled the original code
+example : (run digestCab (M.raw ⟨[tinyCab ++ [0x55]], .eof, true⟩)).1 = .err "trailing" ∧
+    (run digestCab (M.raw ⟨[tinyCab, []], .eof, false⟩)).1.isOk = true := by decide +kernel
+
+/-! ### the code before fix F-rd-cab-tail (`digestCabOrig`: one-byte probe `r.Read(make([]byte, 1))`) -/
+
+/-- the statement, for the original code -/
+def cab_orig_reader_split_independent_full : Prop :=
+  ∀ (s s' : Stream), s.data = s'.data → s.term = s'.term →
+    (run digestCabOrig (M.raw s)).1 = (run digestCabOrig (M.raw s')).1
+
+/-- the original code was split independent over `Plain` streams only (no empty reads; the terminal error not delivered
+    with data): its last act was a one-byte `r.Read` whose error alone decided between "trailing garbage" and success -/
+theorem cab_orig_reader_split_independent_partial (s s' : Stream) (hd : s.data = s'.data) (ht : s.term = s'.term)
+    (hp : s.Plain) (hp' : s'.Plain) :
+    (run digestCabOrig (M.raw s)).1 = (run digestCabOrig (M.raw s')).1 ∧
+    (run digestCabOrig (M.raw s)).2.1 = (run digestCabOrig (M.raw s')).2.1 := by
+  have h := run_split_independent digestCabOrig digestCabOrig_free.rawFree s s' hd ht
+    (Or.inl digestCabOrig_free.bufFree) (Or.inr ⟨hp, hp'⟩)
+  exact ⟨h.1, h.2.1⟩
+
+/-- **cab_reader_split_dependent** (finding F-rd-cab-tail, repaired).  The original `cabfile.Digest` depended on the delivery:
+    (a) a cabinet followed by one byte of garbage was refused when read from a file, and accepted — the garbage
+        ignored — when the reader returned io.EOF together with that byte (as net/http request bodies do);
+    (b) a well-formed cabinet was refused ("trailing garbage") when the reader answered the final probe with `0, nil`. -/
 theorem cab_reader_split_dependent :
-    (run digestCab (M.raw ⟨[tinyCab ++ [0x55]], .eof, false⟩)).1 = .err "trailing" ∧
-    (run digestCab (M.raw ⟨[tinyCab ++ [0x55]], .eof, true⟩)).1.isOk = true ∧
-    (run digestCab (M.raw ⟨[tinyCab], .eof, false⟩)).1.isOk = true ∧
-    (run digestCab (M.raw ⟨[tinyCab, []], .eof, false⟩)).1 = .err "trailing" := by
+    (run digestCabOrig (M.raw ⟨[tinyCab ++ [0x55]], .eof, false⟩)).1 = .err "trailing" ∧
+    (run digestCabOrig (M.raw ⟨[tinyCab ++ [0x55]], .eof, true⟩)).1.isOk = true ∧
+    (run digestCabOrig (M.raw ⟨[tinyCab], .eof, false⟩)).1.isOk = true ∧
+    (run digestCabOrig (M.raw ⟨[tinyCab, []], .eof, false⟩)).1 = .err "trailing" := by
   decide +kernel
 
-theorem cab_reader_split_independent_full_false : ¬ cab_reader_split_independent_full := by
+theorem cab_orig_reader_split_independent_full_false : ¬ cab_orig_reader_split_independent_full := by
   intro h
   have := h ⟨[tinyCab ++ [0x55]], .eof, false⟩ ⟨[tinyCab ++ [0x55]], .eof, true⟩ rfl rfl
   have c := cab_reader_split_dependent
@@ -182,20 +198,6 @@ theorem cab_reader_split_independent_full_false : ¬ cab_reader_split_independen
   have c2 := c.2.1
   rw [← this] at c2
   simp [Res.isOk] at c2
-
-/-- **cab_fixed_reader_split_independent.** With the proposed fix (patches/cab-trailing-probe.patch: drain with
-    `io.Copy(io.Discard, r)` and look at the byte count) the digester has no probe left and is split independent for
-    every delivery. -/
-theorem cab_fixed_reader_split_independent (s s' : Stream) (hd : s.data = s'.data) (ht : s.term = s'.term) :
-    (run digestCabFixed (M.raw s)).1 = (run digestCabFixed (M.raw s')).1 ∧
-    (run digestCabFixed (M.raw s)).2.1 = (run digestCabFixed (M.raw s')).2.1 := by
-  have h := run_split_independent digestCabFixed digestCabFixed_free.rawFree s s' hd ht
-    (Or.inl digestCabFixed_free.bufFree) (Or.inl digestCabFixed_free.probeFree)
-  exact ⟨h.1, h.2.1⟩
-
--- the two witnesses of cab_reader_split_dependent, after the fix
-example : (run digestCabFixed (M.raw ⟨[tinyCab ++ [0x55]], .eof, true⟩)).1 = .err "trailing" ∧
-    (run digestCabFixed (M.raw ⟨[tinyCab, []], .eof, false⟩)).1.isOk = true := by decide +kernel
 
 /-! ## digesters behind archive framing: ZIP through a stream, tar, code pages, ar -/
 
@@ -223,10 +225,34 @@ example :
     (run (raProg c 0) (M.raw ⟨[[9, 2], [], [0, 7], [8, 9]], .eof, true⟩)).1 = .ok [7, 8] ∧
     (run (raProg c 0) (M.raw ⟨[[9, 2, 0, 7, 8, 9]], .eof, false⟩)).1 = .ok [7, 8] := by decide +kernel
 
-/-! `jar_reader_split_independent_full` (JAR, APK, AppX, VSIX over `zipslicer.ReadZipTar`) has no Lean statement: these digesters
-    are `raProg` clients only after the tar framing (`tarNext`/`tarCopy` below) has been composed with `streamReaderAt`
-    (`zipTarReader.Read` checks `tr.Next()` at the end of the member) and with compress/flate taken as a pure function; no reader
-    program exists for them.  Searched by RD frag / RD e2e; their calls are in `readers_generated_ok`. -/
+/-- **jar_reader_split_independent** (JAR, APK, AppX, VSIX: every digester that goes through `zipslicer.ReadZipTar`).
+    The whole path from the upload stream to the ZIP reader — `archive/tar` framing (`tr.Next`, `ioutil.ReadAll(tr)` of
+    `zipdir.bin`, the member reader of `contents.zip`), `zipTarReader.Read` with its `tr.Next()` check on the member's io.EOF,
+    and `streamReaderAt.ReadAt` (`io.CopyN` to Discard + `io.ReadFull`, `pos` not advanced by a failed skip) — is split
+    independent for EVERY consumer `mk cd size` of the resulting `io.ReaderAt`: whatever `ReadAt(len, off)` calls the consumer
+    issues as a function of the directory blob, the size and the answers so far (SectionReader, TeeReader, flate with its own
+    bufio, CRC / descriptor checks, `signjar`'s manifest logic, `signappx`'s block map, `apk`'s merkle hasher are such
+    consumers), its result and everything it wrote to its sinks are the same for all deliveries of the same bytes.
+    Tar layer: plain headers (as `ZipToTar` writes them), see `tarParse`.
+    Scope of the tie: for uploads that fail with a transport error the program is tied to the code up to and including the
+    first answer that carries that error (real consumers stop there): afterwards the Go code reports io.EOF or the transport
+    error again depending on whether the error came together with the member's last byte (`zipTarReader` keeps `tr` when
+    `tr.Read` returns a non-EOF error), which no program of the calculus can see. -/
+theorem jar_reader_split_independent {α : Type} (mk : Bytes → Nat → ZClient α) (s s' : Stream)
+    (hd : s.data = s'.data) (ht : s.term = s'.term) :
+    (run (readZipTar mk) (M.raw s)).1 = (run (readZipTar mk) (M.raw s')).1 ∧
+    (run (readZipTar mk) (M.raw s)).2.1 = (run (readZipTar mk) (M.raw s')).2.1 :=
+  free_split_independent _ (readZipTar_free mk) s s' hd ht
+
+/-- and on any delivery the consumer sees what it sees on the whole buffer -/
+theorem jar_reader_eq_whole {α : Type} (mk : Bytes → Nat → ZClient α) (s : Stream) :
+    (run (readZipTar mk) (M.raw s)).1 = (runFlat (readZipTar mk) (Flat.raw s.data s.term)).1 := by
+  have f := readZipTar_free mk
+  exact (run_eq_whole _ f.rawFree s (Or.inl f.bufFree) (Or.inl f.probeFree)).1
+
+/-! What stays open for JAR/APK/AppX/VSIX (`jar_reader_refines_model_full`, no Lean statement): naming the concrete consumer — i.e.
+    compress/flate, the CRC check and `updateManifest` as one `ZClient` — and its refinement to `Relic.Model.Jar` / `Appx` / `ApkSign`,
+    which start from the parsed ZIP.  PAX/GNU tar records are outside `tarParse`. -/
 
 /-- **xap_reader_split_independent_partial.** `signxap.DigestXapTar` over `archive/tar` restricted to plain headers
     (`tarNext`: CopyN-discard, tryReadFull of the padding, ReadFull of the 512-byte block(s); `tarCopy`: the limited
@@ -304,20 +330,12 @@ theorem pe_reader_refines_model (pg : Bool) (s : Stream) (ht : s.term = .eof) :
   rw [obs_congr _ _ h.1 h.2, ht]
   exact pe_flat pg s.data
 
-/-- **cab_reader_refines_model** (Plain deliveries): result, hashed stream and `Patched` of `Relic.Cab.DigestCab`. -/
-theorem cab_reader_refines_model (s : Stream) (ht : s.term = .eof) (hp : s.Plain) :
+/-- **cab_reader_refines_model.** For every delivery of a file: result, hashed stream and `Patched` of `Relic.Cab.DigestCab`. -/
+theorem cab_reader_refines_model (s : Stream) (ht : s.term = .eof) :
     obs (run digestCab (M.raw s)) = cabObs s.data := by
-  have h := cab_reader_eq_whole s hp
+  have h := cab_reader_eq_whole s
   rw [obs_congr _ _ h.1 h.2, ht]
   exact cab_flat s.data
-
-/-- with the proposed fix: every delivery -/
-theorem cab_fixed_reader_refines_model (s : Stream) (ht : s.term = .eof) :
-    obs (run digestCabFixed (M.raw s)) = cabObs s.data := by
-  have h := run_eq_whole digestCabFixed digestCabFixed_free.rawFree s
-    (Or.inl digestCabFixed_free.bufFree) (Or.inl digestCabFixed_free.probeFree)
-  rw [obs_congr _ _ h.1 h.2.1, ht]
-  exact cab_fixed_flat s.data
 
 /-- **ps_reader_refines_model** (deliveries that never stall for 100 reads; any fuel above the length): text size,
     signature size, UTF-16 flag and hashed stream of `Relic.PS.DigestPS`. -/
@@ -346,7 +364,8 @@ theorem readers_generated_ok :
 /-- every listed call is a primitive of the calculus (none exposes the size of a single `Read`) -/
 theorem readers_all_in_calculus : Calls.allInCalculus Calls.expected = true := by decide
 
-/-- the only digester that probes with a one-byte `Read` is `cabfile.Digest` -/
-theorem readers_probes : Calls.probes Calls.expected = ["cabfile.Digest"] := by decide
+/-- no listed function probes with a one-byte `Read` any more (cabfile.Digest: fix F-rd-cab-tail; pgptools.readOneSignature:
+    its probe now is an `io.ReadFull`) -/
+theorem readers_probes : Calls.probes Calls.expected = [] := by decide
 
 end Relic.Props.C09
